@@ -207,5 +207,8 @@ def select_m(name):
 
 def tasks():
     """function-level tasks plus the machine-level obligations of this property (mailbox-cluster engine)"""
+    import os
     from pyvc.mrun import ClusterTask
+    if os.environ.get("VERIF_NO_CLUSTER"):
+        return _f_tasks()
     return _f_tasks() + [ClusterTask("mailbox-cluster", "props.mailbox", "engine", select_m, "mailbox_history:search")]
